@@ -168,7 +168,13 @@ def classify(kf, rec):
     if c.get("_diff"):
         return False          # the implementation no longer behaves like the pinned model here: not a listed finding
     if cl == "sentence-head-unescaped":
-        return bool(c["opts"].get("semantic")) and any(MARKER_WORD.match(w) for w in new_line_heads(c))
+        if not c["opts"].get("semantic"):
+            return False
+        if any(MARKER_WORD.match(w) for w in new_line_heads(c)):
+            return True
+        # a marker word directly after a sentence end inside a paragraph of the input
+        src = c.get("parser_input") or doc
+        return any(MARKER_WORD.match(m.group(1)) for m in re.finditer(r"[.!?][\"'\u201d\u2019)]*[ \t]+(\S+)(?=\s|$)", src))
     if cl == "html-or-table-at-line-start":
         return "HTML block start" in what
     if cl == "closing-tag-unindented":
